@@ -1,8 +1,9 @@
 import BqVerif.Proofs.GraphBasic
 /-!
-`CouplingGraph.get_subgraph` (model: `G.subgraph`): default renumbering, the induced-subgraph
-specification for bijective renumberings, the exact error cases, and a witness that the
-"permutation" check of the code is too weak.
+`CouplingGraph.get_subgraph` (model: `G.subgraph`, after the fix 494efa1 of the permutation
+check): `sorted(values) == list(range(k))` characterised, default renumbering, the
+induced-subgraph specification for bijective renumberings, and the exact error cases
+(the call succeeds iff the location is valid and non-empty and the renumbering is a bijection).
 -/
 namespace BqVerif.Graph
 
@@ -153,6 +154,93 @@ theorem lookup_inj (ren : List (Nat × Nat)) (hv : (ren.map (·.2)).Nodup) (a b 
   exact (Prod.mk.inj this).1
 
 
+
+/-! ### `sorted(...)`: insertion sort -/
+
+theorem insertSorted_perm (x : Nat) (l : List Nat) : (insertSorted x l).Perm (x :: l) := by
+  induction l with
+  | nil => exact List.Perm.refl _
+  | cons y ys ih =>
+    unfold insertSorted
+    split
+    · exact List.Perm.refl _
+    · exact (ih.cons y).trans (List.Perm.swap x y ys)
+
+theorem sortNat_nil : sortNat [] = [] := rfl
+
+theorem sortNat_cons (x : Nat) (l : List Nat) : sortNat (x :: l) = insertSorted x (sortNat l) := rfl
+
+theorem sortNat_perm (l : List Nat) : (sortNat l).Perm l := by
+  induction l with
+  | nil => exact List.Perm.refl _
+  | cons x xs ih =>
+    rw [sortNat_cons]
+    exact (insertSorted_perm x _).trans (ih.cons x)
+
+theorem insertSorted_sorted (x : Nat) (l : List Nat) (h : l.Pairwise (· ≤ ·)) :
+    (insertSorted x l).Pairwise (· ≤ ·) := by
+  induction l with
+  | nil => simp [insertSorted]
+  | cons y ys ih =>
+    rw [List.pairwise_cons] at h
+    unfold insertSorted
+    split
+    · rename_i hxy
+      rw [List.pairwise_cons]
+      refine ⟨?_, List.pairwise_cons.2 h⟩
+      intro b hb
+      rcases List.mem_cons.1 hb with hb | hb
+      · omega
+      · have := h.1 b hb; omega
+    · rename_i hxy
+      rw [List.pairwise_cons]
+      refine ⟨?_, ih h.2⟩
+      intro b hb
+      rcases List.mem_cons.1 ((insertSorted_perm x ys).mem_iff.1 hb) with hb | hb
+      · omega
+      · exact h.1 b hb
+
+theorem sortNat_sorted (l : List Nat) : (sortNat l).Pairwise (· ≤ ·) := by
+  induction l with
+  | nil => exact List.Pairwise.nil
+  | cons x xs ih => rw [sortNat_cons]; exact insertSorted_sorted x _ ih
+
+/-- `sorted(vals) == list(range(k))` iff `vals` is a permutation of `0..k-1` -/
+theorem sortNat_eq_range_iff (l : List Nat) (k : Nat) :
+    sortNat l = List.range k ↔ l.Perm (List.range k) := by
+  constructor
+  · intro h
+    rw [← h]
+    exact (sortNat_perm l).symm
+  · intro h
+    exact List.Perm.eq_of_pairwise (le := (· ≤ ·)) (fun a b _ _ h1 h2 => Nat.le_antisymm h1 h2)
+      (sortNat_sorted l) List.pairwise_le_range ((sortNat_perm l).trans h)
+
+example : sortNat [2, 0, 1] = List.range 3 ∧ [2, 0, 1].Perm (List.range 3) := by decide
+example : sortNat [2, 0, 2] ≠ List.range 3 ∧ ¬ [2, 0, 2].Perm (List.range 3) := by decide
+
+/-! ### keys of the renumbering -/
+
+/-- a list as long as a duplicate-free list with the same members is duplicate-free -/
+theorem nodup_of_length_eq_of_mem_iff {α} [BEq α] [LawfulBEq α] (keys loc : List α)
+    (hnd : loc.Nodup) (hlen : keys.length = loc.length) (hmem : ∀ q, q ∈ keys ↔ q ∈ loc) :
+    keys.Nodup := by
+  apply nodup_of_length_eraseDups
+  have h1 := length_eraseDups_le keys
+  have h2 : loc.length ≤ keys.eraseDups.length :=
+    hnd.length_le_of_subset (fun q hq => List.mem_eraseDups.2 ((hmem q).2 hq))
+  omega
+
+/-- size check + key-set check, for a duplicate-free location: the keys are a permutation of it -/
+theorem keys_perm_iff (keys loc : List Nat) (hnd : loc.Nodup) :
+    (keys.length = loc.length ∧ ∀ q, q ∈ keys ↔ q ∈ loc) ↔ keys.Perm loc := by
+  constructor
+  · rintro ⟨hlen, hmem⟩
+    exact (List.perm_ext_iff_of_nodup
+      (nodup_of_length_eq_of_mem_iff keys loc hnd hlen hmem) hnd).2 hmem
+  · intro h
+    exact ⟨h.length_eq, fun q => h.mem_iff⟩
+
 /-! ### unfolding `G.subgraph` -/
 
 /-- the raw edge list handed to the constructor -/
@@ -163,9 +251,7 @@ def subRaw (g : G) (loc : List Nat) (r : List (Nat × Nat)) : List (Nat × Nat) 
 def checksB (g : G) (loc : List Nat) (r : List (Nat × Nat)) : Bool :=
   validLocation loc g.n && r.length == loc.length &&
   ((r.map (·.1)).all loc.contains && loc.all (r.map (·.1)).contains) &&
-  !loc.isEmpty &&
-  ((r.map (·.2)).foldl min ((r.map (·.2)).headD 0) == 0 &&
-    (r.map (·.2)).foldl max 0 == loc.length - 1)
+  (sortNat (r.map (·.2)) == List.range loc.length)
 
 theorem subgraph_eq (g : G) (loc : List Nat) (r : List (Nat × Nat)) :
     g.subgraph loc (some r) =
@@ -175,97 +261,15 @@ theorem subgraph_eq (g : G) (loc : List Nat) (r : List (Nat × Nat)) :
   generalize validLocation loc g.n = b1
   generalize (r.length == loc.length) = b2
   generalize ((r.map (·.1)).all loc.contains && loc.all (r.map (·.1)).contains) = b3
-  generalize loc.isEmpty = b4
-  generalize ((r.map (·.2)).foldl min ((r.map (·.2)).headD 0) == 0 &&
-    (r.map (·.2)).foldl max 0 == loc.length - 1) = b5
-  cases b1 <;> cases b2 <;> cases b3 <;> cases b4 <;> cases b5 <;> rfl
-
-
-/-! ### the `min`/`max` folds of the "permutation" check -/
-
-theorem foldl_min_le (l : List Nat) (m0 : Nat) :
-    l.foldl min m0 ≤ m0 ∧ ∀ v ∈ l, l.foldl min m0 ≤ v := by
-  induction l generalizing m0 with
-  | nil => simp
-  | cons x xs ih =>
-    simp only [List.foldl_cons, List.mem_cons, forall_eq_or_imp]
-    have := ih (min m0 x)
-    exact ⟨by omega, by omega, this.2⟩
-
-theorem foldl_min_mem (l : List Nat) (m0 : Nat) : l.foldl min m0 = m0 ∨ l.foldl min m0 ∈ l := by
-  induction l generalizing m0 with
-  | nil => simp
-  | cons x xs ih =>
-    simp only [List.foldl_cons, List.mem_cons]
-    rcases ih (min m0 x) with h | h
-    · rw [h]; omega
-    · right; right; exact h
-
-/-- `min(values) == 0` for a non-empty list of naturals: `0` occurs. -/
-theorem foldl_min_head_eq_zero_iff (l : List Nat) (hne : l ≠ []) :
-    l.foldl min (l.headD 0) = 0 ↔ 0 ∈ l := by
-  cases l with
-  | nil => exact absurd rfl hne
-  | cons x xs =>
-    simp only [List.headD_cons, List.foldl_cons, Nat.min_self, List.mem_cons]
-    constructor
-    · intro h
-      rcases foldl_min_mem xs x with h' | h'
-      · left; omega
-      · right; rw [h] at h'; exact h'
-    · intro h
-      have := foldl_min_le xs x
-      rcases h with h | h
-      · omega
-      · have := this.2 0 h; omega
-
-theorem foldl_max_ge' (l : List Nat) (m0 : Nat) :
-    m0 ≤ l.foldl max m0 ∧ ∀ v ∈ l, v ≤ l.foldl max m0 := by
-  induction l generalizing m0 with
-  | nil => simp
-  | cons x xs ih =>
-    simp only [List.foldl_cons, List.mem_cons, forall_eq_or_imp]
-    have := ih (max m0 x)
-    exact ⟨by omega, by omega, this.2⟩
-
-theorem foldl_max_mem (l : List Nat) (m0 : Nat) : l.foldl max m0 = m0 ∨ l.foldl max m0 ∈ l := by
-  induction l generalizing m0 with
-  | nil => simp
-  | cons x xs ih =>
-    simp only [List.foldl_cons, List.mem_cons]
-    rcases ih (max m0 x) with h | h
-    · rw [h]; omega
-    · right; right; exact h
-
-/-- `max(values) == m` for a non-empty list of naturals: `m` occurs and bounds the list. -/
-theorem foldl_max_eq_iff (l : List Nat) (hne : l ≠ []) (m : Nat) :
-    l.foldl max 0 = m ↔ (∀ v ∈ l, v ≤ m) ∧ m ∈ l := by
-  constructor
-  · intro h
-    have hge := (foldl_max_ge' l 0).2
-    rw [h] at hge
-    refine ⟨hge, ?_⟩
-    rcases foldl_max_mem l 0 with h' | h'
-    · cases l with
-      | nil => exact absurd rfl hne
-      | cons x xs =>
-        have : x ≤ m := hge x (List.mem_cons_self)
-        have : x = m := by omega
-        rw [this]; exact List.mem_cons_self
-    · rw [h] at h'; exact h'
-  · rintro ⟨h1, h2⟩
-    have hge := (foldl_max_ge' l 0).2 m h2
-    rcases foldl_max_mem l 0 with h' | h'
-    · omega
-    · have := h1 _ h'; omega
+  generalize (sortNat (r.map (·.2)) == List.range loc.length) = b4
+  cases b1 <;> cases b2 <;> cases b3 <;> cases b4 <;> rfl
 
 /-! ### the checks, as propositions -/
 
 /-- All checks of `get_subgraph` pass. -/
 def ChecksOK (g : G) (loc : List Nat) (r : List (Nat × Nat)) : Prop :=
   (loc.Nodup ∧ ∀ q ∈ loc, q < g.n) ∧ r.length = loc.length ∧
-  (∀ q, q ∈ r.map (·.1) ↔ q ∈ loc) ∧ loc ≠ [] ∧
-  ((∀ v ∈ r.map (·.2), v ≤ loc.length - 1) ∧ 0 ∈ r.map (·.2) ∧ (loc.length - 1) ∈ r.map (·.2))
+  (∀ q, q ∈ r.map (·.1) ↔ q ∈ loc) ∧ (r.map (·.2)).Perm (List.range loc.length)
 
 theorem keysCheck_iff (keys loc : List Nat) :
     (keys.all loc.contains && loc.all keys.contains) = true ↔ ∀ q, q ∈ keys ↔ q ∈ loc := by
@@ -275,25 +279,13 @@ theorem keysCheck_iff (keys loc : List Nat) :
 theorem checksB_iff (g : G) (loc : List Nat) (r : List (Nat × Nat)) :
     checksB g loc r = true ↔ ChecksOK g loc r := by
   unfold checksB ChecksOK
-  simp only [Bool.and_eq_true, validLocation_iff, beq_iff_eq, Bool.not_eq_true',
-    List.isEmpty_eq_false_iff]
+  rw [Bool.and_eq_true, Bool.and_eq_true, Bool.and_eq_true, validLocation_iff, keysCheck_iff,
+    beq_iff_eq, beq_iff_eq, sortNat_eq_range_iff]
   constructor
-  · rintro ⟨⟨⟨⟨⟨h1, h1'⟩, h2⟩, h3⟩, h4⟩, h5, h6⟩
-    have hne : r.map (·.2) ≠ [] := by
-      intro e
-      have := congrArg List.length e
-      simp only [List.length_map, List.length_nil] at this
-      have : loc.length = 0 := by omega
-      exact h4 (List.eq_nil_of_length_eq_zero this)
-    rw [foldl_min_head_eq_zero_iff _ hne] at h5
-    rw [foldl_max_eq_iff _ hne] at h6
-    exact ⟨⟨h1', h1⟩, h2, (keysCheck_iff _ _).1 ((Bool.and_eq_true _ _).mpr h3), h4, h6.1, h5, h6.2⟩
-  · rintro ⟨⟨h1', h1⟩, h2, h3, h4, h6, h5, h7⟩
-    have hne : r.map (·.2) ≠ [] := List.ne_nil_of_mem h5
-    refine ⟨⟨⟨⟨⟨h1, h1'⟩, h2⟩, (Bool.and_eq_true _ _).mp ((keysCheck_iff _ _).2 h3)⟩, h4⟩, ?_, ?_⟩
-    · rw [foldl_min_head_eq_zero_iff _ hne]; exact h5
-    · rw [foldl_max_eq_iff _ hne]; exact ⟨h6, h7⟩
-
+  · rintro ⟨⟨⟨⟨h1, h1'⟩, h2⟩, h3⟩, h4⟩
+    exact ⟨⟨h1', h1⟩, h2, h3, h4⟩
+  · rintro ⟨⟨h1', h1⟩, h2, h3, h4⟩
+    exact ⟨⟨⟨⟨h1, h1'⟩, h2⟩, h3⟩, h4⟩
 
 /-! ### the raw edge list -/
 
@@ -319,10 +311,14 @@ theorem rawMax_lt (raw : List (Nat × Nat)) (k : Nat) (hk : 0 < k)
 
 theorem lookup_lt_of_checks {g : G} {loc : List Nat} {r : List (Nat × Nat)}
     (hc : ChecksOK g loc r) {a : Nat} (ha : a ∈ loc) : lookup r a < loc.length := by
-  obtain ⟨_, _, hk, hne, hle, _, _⟩ := hc
-  have := hle _ (lookup_mem_vals r a ((hk a).2 ha))
-  have : 0 < loc.length := List.length_pos_iff.2 hne
-  omega
+  obtain ⟨_, _, hk, hv⟩ := hc
+  exact List.mem_range.1 (hv.mem_iff.1 (lookup_mem_vals r a ((hk a).2 ha)))
+
+theorem lookup_inj_of_checks {g : G} {loc : List Nat} {r : List (Nat × Nat)}
+    (hc : ChecksOK g loc r) {a b : Nat} (ha : a ∈ loc) (hb : b ∈ loc)
+    (h : lookup r a = lookup r b) : a = b := by
+  obtain ⟨_, _, hk, hv⟩ := hc
+  exact lookup_inj r (hv.nodup_iff.2 List.nodup_range) a b ((hk a).2 ha) ((hk b).2 hb) h
 
 theorem subRaw_lt (g : G) (hwf : g.WF) (loc : List Nat) (r : List (Nat × Nat))
     (hc : ChecksOK g loc r) : ∀ e ∈ subRaw g loc r, e.1 < loc.length ∧ e.2 < loc.length := by
@@ -330,9 +326,12 @@ theorem subRaw_lt (g : G) (hwf : g.WF) (loc : List Nat) (r : List (Nat × Nat))
   obtain ⟨a, ha, b, hb, _, rfl⟩ := (mem_subRaw g hwf loc r e).1 he
   exact ⟨lookup_lt_of_checks hc ha, lookup_lt_of_checks hc hb⟩
 
-/-- two adjacent vertices of `loc` receive the same number -/
-def Merged (g : G) (loc : List Nat) (r : List (Nat × Nat)) : Prop :=
-  ∃ a ∈ loc, ∃ b ∈ loc, g.hasEdge a b = true ∧ lookup r a = lookup r b
+/-- once the checks pass, no self loop reaches the constructor -/
+theorem subRaw_noself (g : G) (hwf : g.WF) (loc : List Nat) (r : List (Nat × Nat))
+    (hc : ChecksOK g loc r) : ∀ e ∈ subRaw g loc r, e.1 ≠ e.2 := by
+  intro e he h
+  obtain ⟨a, ha, b, hb, hab, rfl⟩ := (mem_subRaw g hwf loc r e).1 he
+  exact (g.hasEdge_lt hwf hab).1 (lookup_inj_of_checks hc ha hb h)
 
 theorem subgraph_none_of_not_checks (g : G) (loc : List Nat) (r : List (Nat × Nat))
     (hc : ¬ ChecksOK g loc r) : g.subgraph loc (some r) = none := by
@@ -343,45 +342,31 @@ theorem subgraph_none_of_not_checks (g : G) (loc : List Nat) (r : List (Nat × N
     · exact absurd ((checksB_iff g loc r).1 h) hc
   simp [this]
 
-theorem subgraph_some_of_checks (g : G) (hwf : g.WF) (loc : List Nat) (r : List (Nat × Nat))
-    (hc : ChecksOK g loc r) (hm : ¬ Merged g loc r) :
-    g.subgraph loc (some r) = some ⟨loc.length, ((subRaw g loc r).map norm).eraseDups⟩ := by
-  rw [subgraph_eq, (checksB_iff g loc r).2 hc, if_pos rfl, mk?_some_iff]
-  refine ⟨?_, ?_, rfl⟩
-  · intro e he h
-    obtain ⟨a, ha, b, hb, hab, rfl⟩ := (mem_subRaw g hwf loc r e).1 he
-    exact hm ⟨a, ha, b, hb, hab, h⟩
-  · exact rawMax_lt _ _ (List.length_pos_iff.2 hc.2.2.2.1) (subRaw_lt g hwf loc r hc)
-
-theorem subgraph_none_of_merged (g : G) (hwf : g.WF) (loc : List Nat) (r : List (Nat × Nat))
-    (hm : Merged g loc r) : g.subgraph loc (some r) = none := by
+/-- the empty location: every check passes for the empty dict, and the constructor raises
+(`CouplingGraph([], 0)`) -/
+theorem subgraph_nil (g : G) (r : List (Nat × Nat)) : g.subgraph [] (some r) = none := by
   rw [subgraph_eq]
   split
-  · cases h : mk? (subRaw g loc r) (some loc.length) with
-    | none => rfl
-    | some h' =>
-      exfalso
-      obtain ⟨a, ha, b, hb, hab, e⟩ := hm
-      exact ((mk?_some_iff _ _ _).1 h).1 (lookup r a, lookup r b)
-        ((mem_subRaw g hwf loc r _).2 ⟨a, ha, b, hb, hab, rfl⟩) e
   · rfl
+  · rfl
+
+theorem subgraph_some_of_checks (g : G) (hwf : g.WF) (loc : List Nat) (r : List (Nat × Nat))
+    (hc : ChecksOK g loc r) (hne : loc ≠ []) :
+    g.subgraph loc (some r) = some ⟨loc.length, ((subRaw g loc r).map norm).eraseDups⟩ := by
+  rw [subgraph_eq, (checksB_iff g loc r).2 hc, if_pos rfl, mk?_some_iff]
+  exact ⟨subRaw_noself g hwf loc r hc,
+    rawMax_lt _ _ (List.length_pos_iff.2 hne) (subRaw_lt g hwf loc r hc), rfl⟩
 
 
 /-! ### bijective renumbering: the induced subgraph -/
 
 theorem checksOK_of_perm (g : G) (loc : List Nat) (ren : List (Nat × Nat))
-    (hne : loc ≠ []) (hnd : loc.Nodup) (hlt : ∀ q ∈ loc, q < g.n)
+    (hnd : loc.Nodup) (hlt : ∀ q ∈ loc, q < g.n)
     (hkeys : (ren.map (·.1)).Perm loc)
     (hvals : (ren.map (·.2)).Perm (List.range loc.length)) : ChecksOK g loc ren := by
-  have hpos : 0 < loc.length := List.length_pos_iff.2 hne
-  refine ⟨⟨hnd, hlt⟩, ?_, fun q => hkeys.mem_iff, hne, ?_, ?_, ?_⟩
-  · have := hkeys.length_eq
-    simpa using this
-  · intro v hv
-    have := List.mem_range.1 (hvals.mem_iff.1 hv)
-    omega
-  · exact hvals.mem_iff.2 (List.mem_range.2 hpos)
-  · exact hvals.mem_iff.2 (List.mem_range.2 (by omega))
+  refine ⟨⟨hnd, hlt⟩, ?_, fun q => hkeys.mem_iff, hvals⟩
+  have := hkeys.length_eq
+  simpa using this
 
 /-- bijective renumbering: the induced subgraph, renumbered -/
 theorem subgraph_spec (g : G) (hwf : g.WF) (loc : List Nat) (ren : List (Nat × Nat))
@@ -392,19 +377,11 @@ theorem subgraph_spec (g : G) (hwf : g.WF) (loc : List Nat) (ren : List (Nat × 
       (∀ a b, a ∈ loc → b ∈ loc → h.hasEdge (lookup ren a) (lookup ren b) = g.hasEdge a b) ∧
       (∀ x y, h.hasEdge x y = true →
          ∃ a ∈ loc, ∃ b ∈ loc, x = lookup ren a ∧ y = lookup ren b ∧ g.hasEdge a b = true) := by
-  have hc := checksOK_of_perm g loc ren hne hnd hlt hkeys hvals
-  have hvnd : (ren.map (·.2)).Nodup := hvals.nodup_iff.2 List.nodup_range
+  have hc := checksOK_of_perm g loc ren hnd hlt hkeys hvals
   have hinj : ∀ a b, a ∈ loc → b ∈ loc → lookup ren a = lookup ren b → a = b :=
-    fun a b ha hb h => lookup_inj ren hvnd a b (hkeys.mem_iff.2 ha) (hkeys.mem_iff.2 hb) h
-  have hm : ¬ Merged g loc ren := by
-    rintro ⟨a, ha, b, hb, hab, e⟩
-    exact (g.hasEdge_lt hwf hab).1 (hinj a b ha hb e)
-  have hself : ∀ e ∈ subRaw g loc ren, e.1 ≠ e.2 := by
-    intro e he h
-    obtain ⟨a, ha, b, hb, hab, rfl⟩ := (mem_subRaw g hwf loc ren e).1 he
-    exact hm ⟨a, ha, b, hb, hab, h⟩
-  refine ⟨_, subgraph_some_of_checks g hwf loc ren hc hm, rfl,
-    wf_mk _ _ hself (subRaw_lt g hwf loc ren hc), ?_, ?_⟩
+    fun a b ha hb h => lookup_inj_of_checks hc ha hb h
+  refine ⟨_, subgraph_some_of_checks g hwf loc ren hc hne, rfl,
+    wf_mk _ _ (subRaw_noself g hwf loc ren hc) (subRaw_lt g hwf loc ren hc), ?_, ?_⟩
   · intro a b ha hb
     rw [Bool.eq_iff_iff, hasEdge_mk]
     constructor
@@ -485,106 +462,81 @@ example : let g : G := ⟨4, [(0, 1), (1, 2), (2, 3)]⟩
       g.subgraph loc none = some ⟨3, [(0, 2), (1, 2)]⟩ := by
   refine ⟨by unfold G.WF; decide, by decide, by decide, by decide, by decide⟩
 
-/-! ### the "permutation" check of the code is too weak -/
-
-/-- `min(values) == 0 and max(values) == len - 1` accepts the non-injective renumbering
-`{0:0, 1:2, 2:2}`: no exception, vertices 1 and 2 are merged into vertex 2 and the
-returned graph has the isolated vertex 1. -/
-theorem subgraph_weak_check_witness :
-    (G.mk 3 [(0, 1)]).subgraph [0, 1, 2] (some [(0, 0), (1, 2), (2, 2)]) = some ⟨3, [(0, 2)]⟩ := by
-  decide
-
-/-- and when the merged vertices are adjacent the constructor raises (self loop) -/
-theorem subgraph_weak_check_witness_raise :
-    (G.mk 3 [(1, 2)]).subgraph [0, 1, 2] (some [(0, 0), (1, 2), (2, 2)]) = none := by
-  decide
-
 
 /-! ### exact error cases -/
 
-/-- exact error cases: `none` iff one of the checks of the code fails, or all pass and two
-adjacent vertices are merged (then the constructor raises).  (The hypothesis "keys of the dict
-are distinct" is not needed.) -/
+/-- exact error cases: the call raises iff the location is invalid or empty, or the renumbering
+is not a bijection `loc → [0,|loc|)` (wrong size, wrong key set, or values not a permutation of
+`0..|loc|-1`).  In particular no renumbering that merges vertices is accepted any more.
+(The hypothesis "keys of the dict are distinct" is not needed: it follows.) -/
 theorem subgraph_none_iff (g : G) (hwf : g.WF) (loc : List Nat) (ren : List (Nat × Nat)) :
     g.subgraph loc (some ren) = none ↔
       (¬ (loc.Nodup ∧ ∀ q ∈ loc, q < g.n))                       -- TypeError: invalid location
+      ∨ loc = []                                                  -- ValueError (constructor)
       ∨ ren.length ≠ loc.length                                   -- ValueError: size
       ∨ ¬ (∀ q, q ∈ ren.map (·.1) ↔ q ∈ loc)                      -- ValueError: keys
-      ∨ loc = []                                                  -- ValueError from min() of empty
-      ∨ ¬ ((∀ v ∈ ren.map (·.2), v ≤ loc.length - 1) ∧ 0 ∈ ren.map (·.2) ∧
-            (loc.length - 1) ∈ ren.map (·.2))                     -- min = 0, max = len-1
-      ∨ (∃ a ∈ loc, ∃ b ∈ loc, g.hasEdge a b = true ∧ lookup ren a = lookup ren b) := by
+      ∨ ¬ (ren.map (·.2)).Perm (List.range loc.length) := by      -- ValueError: not a permutation
   constructor
   · intro hnone
     by_cases h1 : loc.Nodup ∧ ∀ q ∈ loc, q < g.n
     case neg => exact Or.inl h1
-    by_cases h2 : ren.length = loc.length
-    case neg => exact Or.inr (Or.inl h2)
-    by_cases h3 : ∀ q, q ∈ ren.map (·.1) ↔ q ∈ loc
-    case neg => exact Or.inr (Or.inr (Or.inl h3))
     by_cases h4 : loc = []
-    case pos => exact Or.inr (Or.inr (Or.inr (Or.inl h4)))
-    by_cases h5 : (∀ v ∈ ren.map (·.2), v ≤ loc.length - 1) ∧ 0 ∈ ren.map (·.2) ∧
-            (loc.length - 1) ∈ ren.map (·.2)
-    case neg => exact Or.inr (Or.inr (Or.inr (Or.inr (Or.inl h5))))
-    by_cases h6 : Merged g loc ren
-    case pos => exact Or.inr (Or.inr (Or.inr (Or.inr (Or.inr h6))))
-    have := subgraph_some_of_checks g hwf loc ren ⟨h1, h2, h3, h4, h5⟩ h6
+    case pos => exact Or.inr (Or.inl h4)
+    by_cases h2 : ren.length = loc.length
+    case neg => exact Or.inr (Or.inr (Or.inl h2))
+    by_cases h3 : ∀ q, q ∈ ren.map (·.1) ↔ q ∈ loc
+    case neg => exact Or.inr (Or.inr (Or.inr (Or.inl h3)))
+    by_cases h5 : (ren.map (·.2)).Perm (List.range loc.length)
+    case neg => exact Or.inr (Or.inr (Or.inr (Or.inr h5)))
+    have := subgraph_some_of_checks g hwf loc ren ⟨h1, h2, h3, h5⟩ h4
     rw [hnone] at this
     exact absurd this (by simp)
-  · rintro (h | h | h | h | h | h)
+  · rintro (h | h | h | h | h)
     · exact subgraph_none_of_not_checks g loc ren (fun hc => h hc.1)
+    · rw [h]; exact subgraph_nil g ren
     · exact subgraph_none_of_not_checks g loc ren (fun hc => h hc.2.1)
     · exact subgraph_none_of_not_checks g loc ren (fun hc => h hc.2.2.1)
-    · exact subgraph_none_of_not_checks g loc ren (fun hc => hc.2.2.2.1 h)
-    · exact subgraph_none_of_not_checks g loc ren (fun hc => h hc.2.2.2.2)
-    · exact subgraph_none_of_merged g hwf loc ren h
+    · exact subgraph_none_of_not_checks g loc ren (fun hc => h hc.2.2.2)
 
-/-- every disjunct of `subgraph_none_iff` is realised while the earlier ones are not -/
+/-- every disjunct of `subgraph_none_iff` is realised while the others are not; a passing case -/
 example : (G.mk 3 [(0, 1)]).subgraph [0, 0] (some [(0, 0), (0, 1)]) = none := by decide
 example : (G.mk 3 [(0, 1)]).subgraph [0, 3] (some [(0, 0), (3, 1)]) = none := by decide
+example : (G.mk 3 [(0, 1)]).subgraph [] (some []) = none := by decide
 example : (G.mk 3 [(0, 1)]).subgraph [0, 1] (some [(0, 0)]) = none := by decide
 example : (G.mk 3 [(0, 1)]).subgraph [0, 1] (some [(0, 0), (2, 1)]) = none := by decide
-example : (G.mk 3 [(0, 1)]).subgraph [] (some []) = none := by decide
 example : (G.mk 3 [(0, 1)]).subgraph [0, 1] (some [(0, 1), (1, 2)]) = none := by decide
 example : (G.mk 3 [(0, 1)]).subgraph [0, 1] (some [(0, 0), (1, 0)]) = none := by decide
 example : (G.mk 3 [(0, 1)]).subgraph [0, 1, 2] (some [(0, 0), (1, 0), (2, 2)]) = none := by decide
 example : (G.mk 3 [(0, 1)]).subgraph [0, 1] (some [(0, 1), (1, 0)]) = some ⟨2, [(0, 1)]⟩ := by
   decide
 
-/-- the general (possibly non-injective) accepted case: the quotient graph -/
-theorem subgraph_quotient_spec (g : G) (hwf : g.WF) (loc : List Nat) (ren : List (Nat × Nat))
-    (hc : ChecksOK g loc ren)
-    (hm : ¬ ∃ a ∈ loc, ∃ b ∈ loc, g.hasEdge a b = true ∧ lookup ren a = lookup ren b) :
-    ∃ h, g.subgraph loc (some ren) = some h ∧ h.n = loc.length ∧ h.WF ∧
-      ∀ x y, h.hasEdge x y = true ↔
-        ∃ a ∈ loc, ∃ b ∈ loc, x = lookup ren a ∧ y = lookup ren b ∧ g.hasEdge a b = true := by
-  have hself : ∀ e ∈ subRaw g loc ren, e.1 ≠ e.2 := by
-    intro e he h
-    obtain ⟨a, ha, b, hb, hab, rfl⟩ := (mem_subRaw g hwf loc ren e).1 he
-    exact hm ⟨a, ha, b, hb, hab, h⟩
-  refine ⟨_, subgraph_some_of_checks g hwf loc ren hc hm, rfl,
-    wf_mk _ _ hself (subRaw_lt g hwf loc ren hc), ?_⟩
-  intro x y
-  rw [hasEdge_mk]
+/-- success iff valid non-empty location and `ren` is (the graph of) a bijection -/
+theorem subgraph_isSome_iff (g : G) (hwf : g.WF) (loc : List Nat) (ren : List (Nat × Nat)) :
+    (g.subgraph loc (some ren)).isSome = true ↔
+      loc ≠ [] ∧ loc.Nodup ∧ (∀ q ∈ loc, q < g.n) ∧ (ren.map (·.1)).Perm loc ∧
+        (ren.map (·.2)).Perm (List.range loc.length) := by
   constructor
-  · rintro ⟨e, he, h⟩
-    obtain ⟨a, ha, b, hb, hab, rfl⟩ := (mem_subRaw g hwf loc ren e).1 he
-    rcases h with h | h
-    · have h := Prod.mk.inj h
-      exact ⟨a, ha, b, hb, h.1.symm, h.2.symm, hab⟩
-    · have h := Prod.mk.inj h
-      exact ⟨b, hb, a, ha, h.2.symm, h.1.symm, by rw [G.hasEdge_comm]; exact hab⟩
-  · rintro ⟨a, ha, b, hb, rfl, rfl, hab⟩
-    exact ⟨_, (mem_subRaw g hwf loc ren _).2 ⟨a, ha, b, hb, hab, rfl⟩, Or.inl rfl⟩
+  · intro hs
+    have hnn : ¬ g.subgraph loc (some ren) = none := by
+      intro e; rw [e] at hs; simp at hs
+    rw [subgraph_none_iff g hwf] at hnn
+    have h1 : loc.Nodup ∧ ∀ q ∈ loc, q < g.n :=
+      Classical.byContradiction fun h => hnn (Or.inl h)
+    have h4 : loc ≠ [] := fun h => hnn (Or.inr (Or.inl h))
+    have h2 : ren.length = loc.length :=
+      Classical.byContradiction fun h => hnn (Or.inr (Or.inr (Or.inl h)))
+    have h3 : ∀ q, q ∈ ren.map (·.1) ↔ q ∈ loc :=
+      Classical.byContradiction fun h => hnn (Or.inr (Or.inr (Or.inr (Or.inl h))))
+    have h5 : (ren.map (·.2)).Perm (List.range loc.length) :=
+      Classical.byContradiction fun h => hnn (Or.inr (Or.inr (Or.inr (Or.inr h))))
+    exact ⟨h4, h1.1, h1.2, (keys_perm_iff _ loc h1.1).1 ⟨by simpa using h2, h3⟩, h5⟩
+  · rintro ⟨hne, hnd, hlt, hk, hv⟩
+    obtain ⟨h, hh, _⟩ := subgraph_spec g hwf loc ren hne hnd hlt hk hv
+    rw [hh]; rfl
 
-/-- non-vacuity of `subgraph_quotient_spec` (the instance of `subgraph_weak_check_witness`) -/
-example : let g : G := ⟨3, [(0, 1)]⟩
-    let loc := [0, 1, 2]
-    let ren := [(0, 0), (1, 2), (2, 2)]
-    g.WF ∧ ChecksOK g loc ren ∧
-      ¬ ∃ a ∈ loc, ∃ b ∈ loc, g.hasEdge a b = true ∧ lookup ren a = lookup ren b := by
-  refine ⟨by unfold G.WF; decide, (checksB_iff _ _ _).1 (by decide), by decide⟩
+/-- non-vacuity of `subgraph_isSome_iff`: both sides hold / both sides fail -/
+example : ((G.mk 3 [(0, 1)]).subgraph [0, 1] (some [(0, 1), (1, 0)])).isSome = true := by decide
+example : ((G.mk 3 [(0, 1)]).subgraph [0, 1] (some [(0, 1), (0, 0)])).isSome = false := by decide
 
 /-- with the default renumbering the only errors are an invalid or empty location -/
 theorem subgraph_default_none_iff (g : G) (hwf : g.WF) (loc : List Nat) :
@@ -602,15 +554,26 @@ theorem subgraph_default_none_iff (g : G) (hwf : g.WF) (loc : List Nat) :
     rw [subgraph_default, subgraph_none_iff g hwf]
     rcases h with h | h
     · exact Or.inl h
-    · exact Or.inr (Or.inr (Or.inr (Or.inl h)))
+    · exact Or.inr (Or.inl h)
 
+example : (G.mk 3 [(0, 1)]).subgraph [] none = none := by decide
+example : (G.mk 3 [(0, 1)]).subgraph [1, 1] none = none := by decide
+example : (G.mk 3 [(0, 1)]).subgraph [1, 3] none = none := by decide
+example : (G.mk 3 [(0, 1)]).subgraph [1, 0] none = some ⟨2, [(0, 1)]⟩ := by decide
+
+/-- the former weak-check witness (accepted by the old `min == 0 and max == len-1` test, merging
+vertices 1 and 2) is now rejected -/
+theorem subgraph_rejects_non_injective :
+    (G.mk 3 [(0, 1)]).subgraph [0, 1, 2] (some [(0, 0), (1, 2), (2, 2)]) = none := by
+  decide
 
 /-! ### remaining non-vacuity instances -/
 /-- `lookup_zipIdx` -/
 example : (2 : Nat) ∈ [3, 1, 2] ∧ lookup [3, 1, 2].zipIdx 2 = 2 := by decide
 /-- the guard `a ∈ loc` of `lookup_zipIdx` is needed: `lookup` defaults to 0, `idxOf` to the length -/
 example : lookup [3, 1, 2].zipIdx 7 = 0 ∧ [3, 1, 2].idxOf 7 = 3 := by decide
-/-- `subgraph_none_iff`, `subgraph_default_none_iff` (graph of the examples above) -/
+/-- `subgraph_none_iff`, `subgraph_isSome_iff`, `subgraph_default_none_iff`
+(graph of the examples above) -/
 example : (G.mk 3 [(0, 1)]).WF := by unfold G.WF; decide
 
 end BqVerif.Graph
